@@ -7,6 +7,7 @@ CONSTANTS
   Kids = {"c1", "c2"}
   Family = "contract"
   TTLs = {2}
+  LeaseKeys = {}
   MaxNow = 0
 POSTCONDITION Report
 CHECK_DEADLOCK FALSE
